@@ -43,6 +43,11 @@ def pool_json(g):
         M('A', ['missing'], 'Any', docs.any_matcher(['missing'], None, False), eom=False),
         M('T', ['nope'], 'Type', docs.type_matcher(['nope'], 'string', False), typ='string', eom=False),
         M('C', ['nope'], 'Custom', docs.custom_matcher('nope', True, '1', False), eom=False, newv=1),
+        # ErrOnMissingPath(false) forgives a MISSING path only: a present value of the wrong type, or a callback
+        # error on a present value, still fails and is named
+        M('T', ['a'], 'Type', docs.type_matcher(['a'], 'string', False), typ='string', eom=False),
+        M('T', ['nope', 's', 'a'], 'Type', docs.type_matcher(['nope', 's', 'a'], 'string', False), typ='string', eom=False),
+        M('C', ['s'], 'Custom', docs.custom_matcher('s', False, 'boom', False), ok=False, eom=False),
     ]
 
 
@@ -59,6 +64,8 @@ def pool_yaml(g):
         M('T', ['$.a'], 'Type', docs.type_matcher(['$.a'], 'string'), typ='string'),
         M('C', ['$.s'], 'Custom', docs.custom_matcher('$.s', False, 'boom'), ok=False),
         M('A', ['$.missing'], 'Any', docs.any_matcher(['$.missing'], None, False), eom=False),
+        M('T', ['$.a'], 'Type', docs.type_matcher(['$.a'], 'string', False), typ='string', eom=False),
+        M('C', ['$.s'], 'Custom', docs.custom_matcher('$.s', False, 'boom', False), ok=False, eom=False),
     ]
 
 
@@ -222,6 +229,9 @@ def make_world(g, tag):
                         if i < 0:
                             return 'failure message does not name %s (in order): %r' % (needle, msg[:200])
                         pos = i + 1
+                    if msg.count('match.') != len(failing):
+                        return 'failure message names %d matcher errors, %d matchers/paths fail on this document (%s): %r' % (
+                            msg.count('match.'), len(failing), ', '.join('%s(%s)' % f for f in failing), msg[:300])
                     return None
                 errs = [v for x, v in line.events if x == 'E']
                 if errs and b'match.' in errs[0]:
